@@ -271,6 +271,8 @@ def gen_bcast(rng, tier):
             yield {"fam": "bcast", "b": bi, "x": [xi]}
         for px in G.none_patterns(3):
             yield {"fam": "bcast", "b": bi, "x": [None if p else rng.randrange(np_) for p in px]}
+            if is_method:
+                yield {"fam": "bcast", "b": bi, "x": [None if p else rng.randrange(np_) for p in px], "held": 1 + (len(px) + bi) % 2}
         # every ordered pair of distinct pool elements side by side (equal-but-distinguishable values included)
         for i in range(np_):
             for j in range(np_):
@@ -874,8 +876,27 @@ def bcast_wire(spec):
         if x is not None and I.uid(x) not in tab:
             tab[I.uid(x)] = G.res_code(I, lambda: _scalar_call(x, name, is_method, a, k))
 
+    held = None
+    if spec.get("held") and is_method and len(xs) >= 1 and not all(x is None for x in xs):
+        # the broadcast method is looked up FIRST and kept (f = v.bit_length), then the vector gets its final contents by in-place
+        # writes, then f(...) is called: element i of the result is the method applied to what element i is at the time of the call
+        pool_ = BCAST_POOLS[t]
+        first = [pool_[(i + 1) % len(pool_)] if x is not None else pool_[0] for i, x in enumerate(xs)]
+        try:
+            v = Vector(list(first))
+            held = getattr(v, name)
+            for i, x in enumerate(xs):
+                if spec["held"] == 1:
+                    v[i] = x
+                else:
+                    v[i:i + 1] = [x]
+            if list(v) != list(xs) and [repr(q) for q in v] != [repr(q) for q in xs]:
+                return {"skip": "held route did not produce the intended contents"}
+        except Exception as e:
+            return {"skip": "held route raised " + type(e).__name__}
+
     def call():
-        attr = getattr(v, name)
+        attr = held if held is not None else getattr(v, name)
         return attr(*a, **k) if is_method else attr
     r, err = G.run(call)
     impl = {"err": err} if err else G.vec_obs(I, r, v)
